@@ -153,6 +153,10 @@ func genC16(r *core.Rand, p *core.Plan) {
 				}
 			}
 		}
+		if r.Chance(1, 2) {
+			// a backend call fails once during the resumed recovery
+			p.Ops = append(p.Ops, core.Op{K: "failnth", A: []int64{int64(r.Intn(3)), int64(r.Range(1, 4))}})
+		}
 		p.Ops = append(p.Ops, core.Op{K: "start"})
 		p.Ops = append(p.Ops, core.Op{K: "sync"})
 	}
@@ -395,6 +399,12 @@ func (rs *runState) createwallet(step int, op core.Op) {
 			env.Count("probe.recovery-interrupted-midway")
 		}
 		env.Logf("%d interrupt at synced=%d", step, st.Height)
+		if f := op.Arg(5); f > 0 {
+			// the resumed recovery meets a backend failure too
+			m := []string{"FilterBlocks", "GetBlockHash", "GetBlockHeader"}[(f-1)%3]
+			x.pendingFailNth = map[string]int{m: int(1 + ((f-1)/3+int64(i))%4)}
+			env.Count("fault.backend-call-during-resumed-recovery." + m)
+		}
 		if err := x.reopen(); err != nil {
 			x.fail("restart-failed", "reopen: %v", err)
 			return
